@@ -21,6 +21,7 @@
 #include <ksi/pkitruststore.h>
 #include <ksi/signature_builder.h>
 #include <ksi/signature_helper.h>
+#include <ksi/impl/signature_impl.h>
 #include <stdarg.h>
 #include <time.h>
 #include <dirent.h>
@@ -397,6 +398,31 @@ static void sig_followups(KSI_Signature *sig) {
 		}
 	}
 	KSI_HashChainLinkIdentityList_free(ids);
+	{
+		/* the metadata records of the links, field by field, through ONE receiving variable per type that is not cleared in between (a getter
+		 * for an absent field has to say so itself) */
+		size_t ci, li;
+		KSI_Utf8String *mu = NULL;
+		KSI_Integer *mn = NULL;
+		KSI_OctetString *mp = NULL;
+		for (ci = 0; ci < KSI_AggregationHashChainList_length(sig->aggregationChainList); ci++) {
+			KSI_AggregationHashChain *ch = NULL;
+			KSI_LIST(KSI_HashChainLink) *ll = NULL;
+			KSI_AggregationHashChainList_elementAt(sig->aggregationChainList, ci, &ch);
+			if (ch == NULL || KSI_AggregationHashChain_getChain(ch, &ll) != KSI_OK || ll == NULL) continue;
+			for (li = 0; li < KSI_HashChainLinkList_length(ll); li++) {
+				KSI_HashChainLink *lk = NULL;
+				KSI_MetaDataElement *mde = NULL;
+				KSI_HashChainLinkList_elementAt(ll, li, &lk);
+				if (lk == NULL || KSI_HashChainLink_getMetaData(lk, &mde) != KSI_OK || mde == NULL) continue;
+				CALL(); NOTE(KSI_MetaDataElement_getClientId(mde, &mu)); utf_touch(mu);
+				CALL(); NOTE(KSI_MetaDataElement_getMachineId(mde, &mu)); utf_touch(mu);
+				CALL(); NOTE(KSI_MetaDataElement_getSequenceNr(mde, &mn)); int_touch(mn);
+				CALL(); NOTE(KSI_MetaDataElement_getRequestTimeInMicros(mde, &mn)); int_touch(mn);
+				CALL(); NOTE(KSI_MetaDataElement_getPadding(mde, &mp)); oct_touch(mp);
+			}
+		}
+	}
 	CALL(); NOTE(KSI_Signature_getSigningTime(sig, &t)); int_touch(t);
 	CALL(); NOTE(KSI_Signature_getDocumentHash(sig, &h)); hash_touch(h);
 	CALL(); NOTE(KSI_Signature_getHashAlgorithm(sig, &alg));
@@ -1151,6 +1177,33 @@ static void add_ref_seeds(void) {
 		}
 	}
 	{
+		/* a publication record whose reference string is present but empty (09 01 00): refused, and refused cleanly */
+		rs_params p;
+		rsig s2;
+		vbuf o;
+		size_t off;
+		rs_default_params(&p);
+		p.tail = 2;
+		rs_build(&s2, &p);
+		vb_init(&o);
+		rs_serialize(&s2, &o);
+		/* append 09 01 00 to the publication record (the last element of the signature) and lengthen both enclosing TLV16 headers */
+		{
+			rtlv top, e;
+			size_t last = 0;
+			if (rtlv_read(o.p, o.n, &top) != 0) vf_harness_error("pubref seed");
+			for (off = top.hdr; off < o.n && rtlv_read(o.p + off, o.n - off, &e) == 0; off += e.hdr + e.len) last = off;
+			if (rtlv_read(o.p + last, o.n - last, &e) == 0 && e.tag == 0x803 && e.hdr == 4 && top.hdr == 4) {
+				unsigned l1 = (unsigned)top.len + 3, l2 = (unsigned)e.len + 3;
+				vb_put(&o, "\x09\x01\x00", 3);
+				o.p[2] = (unsigned char)(l1 >> 8); o.p[3] = (unsigned char)l1;
+				o.p[last + 2] = (unsigned char)(l2 >> 8); o.p[last + 3] = (unsigned char)l2;
+				add_seed("ref:sig.pubref-empty-string", o.p, o.n);
+			}
+		}
+		vb_free(&o);
+	}
+	{
 		/* the zero-length imprint at the very end of the buffer, in its smallest form: signature { aggregation chain { input hash, length 0 } } */
 		static const unsigned char Z[] = {0x88, 0x00, 0x00, 0x06, 0x88, 0x01, 0x00, 0x02, 0x05, 0x00};
 		add_seed("ref:sig.zero-length-input-hash", Z, sizeof Z);
@@ -1161,7 +1214,7 @@ static void add_ref_seeds(void) {
 static const char *QUICK_SEEDS[] = {
 	"ref:sig.tail3.rfc0", "ref:sig.tail2.rfc1", "ref:aggr-resp.v2", "ref:aggr-resp.v1", "ref:ext-resp.v2", "ref:ext-resp.v1", "ref:aggr-error.v2",
 	"ref:ext-conf.v2", "ref:sig.zero-length-input-hash", "ok-sig-metadata-with-padding.ksig", "rfc3161-sha1-as-input-hash-2017.ksig", "ok_nested-9.tlv",
-	"publications-one-cert-one-publication-record-with-wrong-hash.tlv", "ref:pubfile.large-unknown-record", "ref:pubfile.sha512-publication", "ref:ext-req-wide-integers.v2", NULL
+	"publications-one-cert-one-publication-record-with-wrong-hash.tlv", "ref:pubfile.large-unknown-record", "ref:pubfile.sha512-publication", "ref:ext-req-wide-integers.v2", "ref:sig.pubref-empty-string", NULL
 };
 
 static void load_seeds(void) {
